@@ -100,7 +100,7 @@ def has_quantifier(e):
 
 
 class Obligation:
-    __slots__ = ("oid", "kind", "assumptions", "goal", "where", "note", "path", "values", "inputs")
+    __slots__ = ("oid", "kind", "assumptions", "goal", "where", "note", "path", "values", "inputs", "ghost")
 
     def __init__(self, oid, kind, assumptions, goal, where, note="", path=(), values=None):
         self.oid = oid
@@ -112,6 +112,7 @@ class Obligation:
         self.path = tuple(path)
         self.values = values or {}
         self.inputs = None
+        self.ghost = None
 
 
 class PathCtx:
@@ -197,11 +198,13 @@ class PathCtx:
             # trivially true instances are still counted (as discharged by the encoder)
             self.sink.append(Obligation(oid, kind, [], True, where, note, self.decisions, values or self.values))
             self.sink[-1].inputs = self.inputs
+            self.sink[-1].ghost = self.ghost
             return
         if goal is False:
             goal = z3.BoolVal(False)
         self.sink.append(Obligation(oid, kind, self.pc, goal, where, note, self.decisions, values or self.values))
         self.sink[-1].inputs = self.inputs
+        self.sink[-1].ghost = self.ghost
 
 
 # --------------------------------------------------------------------------
